@@ -148,51 +148,76 @@ NAMES = [None, "a", "b", "ab", "A", ""]
 XS = [None, 0, 1, 2, -1]
 
 
+_NV = len(NAMES)
+_XV = len(XS)
+
+
+def _vals(code, n_str, with_x=True):
+    """decode one drawn integer into (name, x, [note]) values: one draw per row keeps generation cheap"""
+    out = [NAMES[code % _NV]]
+    code //= _NV
+    if with_x:
+        out.append(XS[code % _XV])
+        code //= _XV
+    if n_str > 1:
+        out.append(NAMES[code % _NV])
+    return out
+
+
 @st.composite
 def datasets(draw, max_parents=6, max_children=4, max_grand=3):
     """JSON data set; ``tot_c`` / ``tot_g`` / ``tot_t`` force every parent / child to have >=1 child /
     grandchild / tag, ``no_orphans`` removes NULL FKs (so that innerjoin=True is inside its documented
     domain on some relationships of some cases, independently per level)"""
-    name = st.sampled_from(NAMES)
-    x = st.sampled_from(XS)
-    tot_c, tot_g, tot_t, no_orphans = (draw(st.sampled_from([False, False, True])) for _ in range(4))
+    code = st.integers(0, _NV * _XV * _NV - 1)
+    flags = draw(st.integers(0, 80))
+    tot_c, tot_g, tot_t, no_orphans = (flags % 3 == 2), (flags // 3 % 3 == 2), (flags // 9 % 3 == 2), (flags // 27 % 3 == 2)
     np_ = draw(st.integers(1 if tot_c else 0, max_parents))
-    parents = [[i + 1, draw(name), draw(x), draw(name)] for i in range(np_)]
-    children = []
-    for p in parents:
-        for _ in range(draw(st.integers(1 if tot_c else 0, max_children))):
-            children.append([len(children) + 1, p[0], draw(name), draw(x), draw(name)])
+    parents, children, grand = [], [], []
+    for i in range(np_):
+        name, x, note = _vals(draw(code), 2)
+        parents.append([i + 1, name, x, note])
+    counts = draw(st.lists(st.integers(1 if tot_c else 0, max_children), min_size=np_, max_size=np_))
+    for p, k in zip(parents, counts):
+        for _ in range(k):
+            name, x, note = _vals(draw(code), 2)
+            children.append([len(children) + 1, p[0], name, x, note])
     if not no_orphans:
-        for _ in range(draw(st.integers(0, 2))):  # orphans: NULL FK
-            children.append([len(children) + 1, None, draw(name), draw(x), draw(name)])
-    grand = []
-    for c in children:
-        for _ in range(draw(st.integers(1 if tot_g else 0, max_grand))):
-            grand.append([len(grand) + 1, c[0], draw(name), draw(x)])
+        for _ in range(draw(st.sampled_from([0, 1, 1, 2]))):  # orphans: NULL FK
+            name, x, note = _vals(draw(code), 2)
+            children.append([len(children) + 1, None, name, x, note])
+    counts = draw(st.lists(st.integers(1 if tot_g else 0, max_grand), min_size=len(children), max_size=len(children)))
+    for c, k in zip(children, counts):
+        for _ in range(k):
+            name, x = _vals(draw(code), 1)
+            grand.append([len(grand) + 1, c[0], name, x])
     if not no_orphans:
-        for _ in range(draw(st.integers(0, 2))):
-            grand.append([len(grand) + 1, None, draw(name), draw(x)])
+        for _ in range(draw(st.sampled_from([0, 1, 1, 2]))):
+            name, x = _vals(draw(code), 1)
+            grand.append([len(grand) + 1, None, name, x])
     nt = draw(st.integers(1 if tot_t else 0, 4))
-    tags = [[i + 1, draw(name)] for i in range(nt)]
+    tags = [[i + 1, NAMES[draw(st.integers(0, _NV - 1))]] for i in range(nt)]
     pt = []
     if parents and tags:
-        for p in parents:
-            mask = draw(st.integers(0, (1 << nt) - 1))
+        masks = draw(st.lists(st.integers(0, (1 << nt) - 1), min_size=np_, max_size=np_))
+        for p, mask in zip(parents, masks):
             if tot_t and mask == 0:
                 mask = 1 << (p[0] % nt)
             for j in range(nt):
                 if mask >> j & 1:
                     pt.append([p[0], tags[j][0]])
     nn = draw(st.integers(0, 7))
-    shape = draw(st.sampled_from(["forest", "forest", "any"]))
+    forest = draw(st.integers(0, 2)) != 2
     nodes = []
     for i in range(nn):
         nid = i + 1
-        if shape == "forest":
-            pid = draw(st.sampled_from([None] + list(range(1, nid)))) if nid > 1 else None
+        name, x = _vals(draw(code), 1)
+        k = draw(st.integers(0, nn))  # 0 -> NULL parent
+        if forest:
+            pid = None if (nid == 1 or k % nid == 0) else k % nid
         else:
-            pid = draw(st.sampled_from([None] + list(range(1, nn + 1))))
-        nodes.append([nid, pid, draw(name), draw(x)])
+            pid = None if k == 0 else k
+        nodes.append([nid, pid, name, x])
     return {"parent": parents, "child": children, "grandchild": grand, "tag": tags, "parent_tag": pt, "node": nodes}
 
 
@@ -348,8 +373,9 @@ def exprs(cols_r, cols_j, max_leaves=4):
     )
 
 
-def expr_sa(e, col):
-    """render with SQLAlchemy operators; ``col(t, name)`` gives an ORM attribute or a Core column"""
+def expr_sa(e, col, ext=None):
+    """render with SQLAlchemy operators; ``col(t, name)`` gives an ORM attribute or a Core column;
+    ``ext(e)`` renders leaf kinds this module does not know (relationship comparators etc.)"""
     from sqlalchemy import and_, not_, or_
 
     k = e[0]
@@ -367,11 +393,17 @@ def expr_sa(e, col):
         a, op, b = col(e[1], e[2]), e[3], col(e[4], e[5])
         return {"=": a == b, "!=": a != b, "<": a < b, "<=": a <= b, ">": a > b, ">=": a >= b}[op]
     if k == "and":
-        return and_(expr_sa(e[1], col), expr_sa(e[2], col))
+        return and_(expr_sa(e[1], col, ext), expr_sa(e[2], col, ext))
     if k == "or":
-        return or_(expr_sa(e[1], col), expr_sa(e[2], col))
+        return or_(expr_sa(e[1], col, ext), expr_sa(e[2], col, ext))
     if k == "not":
-        return not_(expr_sa(e[1], col))
+        return not_(expr_sa(e[1], col, ext))
+    if k == "case":  # CASE WHEN <cond> THEN 1 ELSE 0 END = 1: true iff cond is true, false otherwise (never NULL)
+        from sqlalchemy import case
+
+        return case((expr_sa(e[1], col, ext), 1), else_=0) == 1
+    if ext is not None:
+        return ext(e)
     raise ValueError(k)
 
 
@@ -403,13 +435,15 @@ def expr_text(e, col):
         return f"({expr_text(e[1], col)} OR {expr_text(e[2], col)})"
     if k == "not":
         return f"(NOT {expr_text(e[1], col)})"
+    if k == "case":
+        return f"(CASE WHEN {expr_text(e[1], col)} THEN 1 ELSE 0 END = 1)"
     raise ValueError(k)
 
 
 def expr_uses(e, t):
     if e[0] in ("and", "or"):
         return expr_uses(e[1], t) or expr_uses(e[2], t)
-    if e[0] == "not":
+    if e[0] in ("not", "case"):
         return expr_uses(e[1], t)
     if e[0] == "colcmp":
         return e[1] == t or e[4] == t
